@@ -66,6 +66,16 @@ def vanished_directory_scenario(viol):
     redo-ood names for the survivors is still what a following redo-ifchange rebuilds, and that redo-ifchange works."""
     import shutil
     from proj import Project
+    for how in ("file", "loop"):
+        if _vanished_directory(viol, how):
+            return
+
+
+def _vanished_directory(viol, how):
+    """how = "file": the directory becomes a plain file (ENOTDIR below it); "loop": it becomes a symbolic link to itself
+    (`ln -s d d`, ELOOP below it — what a botched `ln -sf` leaves behind)."""
+    import shutil
+    from proj import Project
     pr = Project()
     try:
         os.makedirs(pr.path("d"))
@@ -78,7 +88,10 @@ def vanished_directory_scenario(viol):
         if rc != 0:
             problems.append("set-up build failed: " + e[-200:])
         shutil.rmtree(pr.path("d"))
-        pr.write("d", "now a file\n")
+        if how == "file":
+            pr.write("d", "now a file\n")
+        else:
+            os.symlink("d", pr.path("d"))
         pr.write("ksrc", "2\n")
         lists = {}
         for cmd in ("redo-targets", "redo-sources", "redo-ood"):
@@ -101,10 +114,12 @@ def vanished_directory_scenario(viol):
             if rc != 0 or pr.read("keep") != b"2\n":
                 problems.append("redo-ifchange keep: exit %d, keep=%r" % (rc, pr.read("keep")))
         if problems:
-            p = write_replay("C17", "vanished-dir", dict(kind="impl-monitor", problems=problems, lists=lists, scenario="d/x (target) and d/src known; rm -rf d; echo file >d; edit ksrc; redo-targets / redo-sources / redo-ood; redo-ifchange keep"))
-            viol.append(Violation("C17", p, "a directory of known files replaced by a plain file: " + "; ".join(problems[:3])))
+            p = write_replay("C17", "vanished-dir-" + how, dict(kind="impl-monitor", problems=problems, lists=lists, scenario="d/x (target) and d/src known; rm -rf d; %s; edit ksrc; redo-targets / redo-sources / redo-ood; redo-ifchange keep" % ("echo file >d" if how == "file" else "ln -s d d")))
+            viol.append(Violation("C17", p, "a directory of known files replaced by %s: " % ("a plain file" if how == "file" else "a symbolic link to itself") + "; ".join(problems[:3])))
+            return True
     finally:
         pr.destroy()
+    return False
 
 
 def run(ctx):
